@@ -23,7 +23,9 @@ EXTENDS Naturals, Sequences, FiniteSets, TLC
 
 CONSTANTS NW,          \* threads_max
           HdrSz,       \* Stream Header size (12 in reality)
-          Blocks,      \* Seq of [hdr, bh, insz, outsz, errAt, mem]; hdr \in {"ok","bad","direct"}
+          Blocks,      \* Seq of [hdr, bh, insz, outsz, errAt, mem]; hdr \in {"ok","bad","direct","badinit"}
+                       \* ("bad": the Block Header is rejected when decoded; "badinit": it decodes, but
+                       \*  lzma_block_decoder_init() rejects the filter chain, e.g. a misaligned BCJ start offset)
           TailSz,      \* Index + Stream Footer
           TailOk,      \* BOOLEAN: Index/Footer valid
           FileLen,     \* number of bytes of the file that exist (truncation when < full length)
@@ -96,6 +98,7 @@ StBlocks(k, j, n, acc, lim) ==          \* Block j (1-based within Stream k)
         IF n < off + B.bh THEN [out |-> acc, ret |-> "BUF_ERROR"]
         ELSE IF B.hdr = "bad" THEN [out |-> acc, ret |-> "OPTIONS_ERROR"]
         ELSE IF FMem(B) > lim THEN [out |-> acc, ret |-> "MEMLIMIT_ERROR"]
+        ELSE IF B.hdr = "badinit" THEN [out |-> acc, ret |-> "OPTIONS_ERROR"]
         ELSE LET have == Min(B.insz, n - off - B.bh) IN
              IF B.errAt > 0 /\ have >= B.errAt THEN [out |-> acc + ((B.outsz * (B.errAt - 1)) \div (IF B.insz = 0 THEN 1 ELSE B.insz)), ret |-> "DATA_ERROR"]
              ELSE IF have < B.insz THEN [out |-> acc + (IF B.insz = 0 THEN B.outsz ELSE (B.outsz * have) \div B.insz), ret |-> "BUF_ERROR"]
@@ -281,7 +284,7 @@ FailFastTruncated == [m EXCEPT !.rwRet = "DATA_ERROR", !.pc = "stop", !.loopI = 
 \* SEQ_BLOCK_DIRECT_RUN: the single-threaded Block decoder called by the main thread.
 \* r = [ip, op, ret]: new positions inside the Block and the Block decoder's verdict ("OK" | "END" | "ERR")
 DirectRunTo(r) ==
-    /\ m.pc = "run" /\ m.seq = "DIRECTRUN"
+    /\ m.pc = "run" /\ m.seq = "DIRECTRUN" /\ GB(m.blk).hdr # "badinit"
     /\ r.ip >= m.dIn /\ r.ip - m.dIn <= m.inAvail /\ r.op >= m.dOut /\ r.op - m.dOut <= m.outSpace
     /\ LET produce == r.op - m.dOut
            m1 == [m EXCEPT !.inAvail = m.inAvail - (r.ip - m.dIn), !.dIn = r.ip, !.dOut = r.op,
@@ -421,9 +424,16 @@ TiCreate ==
        /\ t' = [t EXCEPT ![w] = [TInit EXCEPT !.pc = "check"]]
     /\ UNCHANGED c
 
+\* lzma_block_decoder_init() rejects the filter chain: pending error, SEQ_ERROR; the worker that was taken for the
+\* Block stays idle and no output buffer has been queued for it
+TiSetupReject ==
+    /\ m.pc = "tisetup" /\ GB(m.blk).hdr = "badinit"
+    /\ m' = [m EXCEPT !.pendingErr = "HDRERR", !.seq = "ERROR", !.pc = "run"]
+    /\ UNCHANGED <<c, t>>
+
 \* no lock: reset the thread's fields, Block decoder init, allocate thr->in, lzma_outq_get_buf
 TiSetup ==
-    /\ m.pc = "tisetup"
+    /\ m.pc = "tisetup" /\ GB(m.blk).hdr # "badinit"
     /\ LET w == m.thr IN
        /\ m' = [m EXCEPT !.pc = "tistart"]
        /\ c' = [c EXCEPT !.outq = Append(c.outq, [b |-> m.blk, w |-> w, pos |-> 0, dip |-> 0, fin |-> FALSE,
@@ -493,6 +503,11 @@ EndJoin ==
                     /\ m' = IF m.pc = "endjoin"
                             THEN [m EXCEPT !.nInit = 0, !.loopI = 0, !.seq = "DIRECTRUN", !.pc = "run", !.dIn = 0, !.dOut = 0]
                             ELSE [m EXCEPT !.nInit = 0, !.loopI = 0, !.pc = "freed"]
+
+\* SEQ_BLOCK_DIRECT_INIT: lzma_block_decoder_init() rejects the filter chain (returned at once: the queue is empty here)
+DirectInitReject ==
+    /\ m.pc = "run" /\ m.seq = "DIRECTRUN" /\ GB(m.blk).hdr = "badinit"
+    /\ m' = Ret(m, "OPTIONS_ERROR") /\ UNCHANGED <<c, t>>
 
 \* decode_block_header(): lzma_block_header_decode() cannot allocate the filter options: like an unsupported header the
 \* error is kept pending and reported after the output of the earlier Blocks
@@ -606,7 +621,7 @@ WFinCoder(w) ==
 Worker(w) == WCheck(w) \/ WWake(w) \/ WDecode(w) \/ WPublish(w) \/ WFinThr(w) \/ WFreeIn(w) \/ WFinCoder(w)
 
 Main == RWBody \/ RWWake \/ RWTimeout \/ StopStep \/ AfterRW \/ Run \/ TiGet \/ TiCreate \/ TiSetup \/ TiStart \/ TiPartial \/ Copy \/ Publish
-        \/ EndSignal \/ EndJoin \/ TiGetFailPrealloc \/ TiCreateFail \/ TiSetupFailIn \/ TiSetupFailDecoder \/ DirectInitFail \/ NextStreamFail \/ BlkHdrFail
+        \/ EndSignal \/ EndJoin \/ TiGetFailPrealloc \/ TiCreateFail \/ TiSetupFailIn \/ TiSetupFailDecoder \/ DirectInitFail \/ NextStreamFail \/ BlkHdrFail \/ TiSetupReject \/ DirectInitReject
 
 App == \/ \E a \in {"RUN", "FINISH"}, g \in Gives, s \in Spaces : Call(a, Min(g, FileLen - m.given), s)
        \/ AppEnd \/ AppReinit \/ (m.lastRet = "MEMLIMIT_ERROR" /\ AppRaise(FMem(GB(m.blk))))
